@@ -6,9 +6,13 @@ package gateway
 import (
 	"context"
 	"net"
+	"sync"
 
 	"github.com/energomonitor/bisquitt/util"
 )
+
+// verifHandlerCfgs: *Gateway => *handlerConfig (see VerifServeConn).
+var verifHandlerCfgs sync.Map
 
 // VerifServeConn serves one MQTT-SN connection exactly as the goroutine
 // started by ListenAndServe does, but on a connection supplied by the
@@ -17,7 +21,8 @@ import (
 //
 // Verification hook; compiled only with the "verif" build tag.
 func (gw *Gateway) VerifServeConn(ctx context.Context, logger util.Logger, snConn net.Conn, dial func() net.Conn) {
-	handlerCfg := &handlerConfig{
+	// Like in ListenAndServe, all sessions of one Gateway share one handlerConfig.
+	cfgx, _ := verifHandlerCfgs.LoadOrStore(gw, &handlerConfig{
 		MqttBrokerAddress:     gw.cfg.MqttBrokerAddress,
 		MqttUser:              gw.cfg.MqttUser,
 		MqttPassword:          gw.cfg.MqttPassword,
@@ -25,7 +30,8 @@ func (gw *Gateway) VerifServeConn(ctx context.Context, logger util.Logger, snCon
 		AuthEnabled:           gw.cfg.AuthEnabled,
 		RetryDelay:            gw.cfg.RetryDelay,
 		RetryCount:            gw.cfg.RetryCount,
-	}
+	})
+	handlerCfg := cfgx.(*handlerConfig)
 	handler := newHandler(handlerCfg, gw.cfg.PredefinedTopics, logger)
 	handler.mockupDialFunc = dial
 	defer func() {
